@@ -87,6 +87,27 @@ fn c04_paired_extend_lengths_bounded() {
         kani::cover!(la < lb);
     }
 }
+// thorough tier: lengths up to 7 (only the count and the error payload are compared: cheap at any length)
+#[kani::proof]
+#[kani::unwind(9)]
+fn c04t_paired_extend_lengths_7_bounded() {
+    let a: [f32; 7] = [1.0, 2.0, 4.0, 8.0, 16.0, 32.0, 64.0];
+    let b: [f32; 7] = [0.5, 0.25, 3.0, 1.0, 7.0, 9.0, 11.0];
+    let la: usize = kani::any();
+    let lb: usize = kani::any();
+    kani::assume(la <= 7 && lb <= 7);
+    let (va, vb): (Vec<f32>, Vec<f32>) = (a[..la].to_vec(), b[..lb].to_vec());
+    let mut p = Paired::<f32>::default();
+    let r = p.extend(&va, &vb);
+    if la == lb {
+        assert!(r.is_ok() && p.sample_count() == la);
+        kani::cover!(la == 7);
+    } else {
+        assert!(matches!(r, Err(CIError::DifferentSampleSizes(x, y)) if x == la && y == lb), "lengths not reported as (|a|, |b|)");
+        kani::cover!(la == lb + 1);
+        kani::cover!(lb == la + 1);
+    }
+}
 // C09 (bounded): extend on a state that already holds data continues the accumulation (chunked feeding = batch)
 #[kani::proof]
 #[kani::unwind(6)]
